@@ -4,6 +4,7 @@
 #include <dispenso/latch.h>
 
 #include <atomic>
+#include <memory>
 #include <thread>
 #include <vector>
 
@@ -76,7 +77,8 @@ static void wlLatch() {
       nWaiters = 1;
   }
   int nThreads = range(1, 3);
-  dispenso::Latch latch((uint32_t)count);
+  std::unique_ptr<dispenso::Latch> latchOwner(new dispenso::Latch((uint32_t)count)); // heap: store-buffer fault
+  dispenso::Latch& latch = *latchOwner;
   std::vector<std::thread> threads;
   // distribute ops round-robin over decrementer threads
   std::vector<std::vector<Op>> perThread((size_t)nThreads);
@@ -134,7 +136,8 @@ static void wlCEvent() {
   int delay = range(0, 40);
   sim_note("waiters", nWaiters);
   sim_note("pollers", nPollers);
-  dispenso::CompletionEvent ev;
+  std::unique_ptr<dispenso::CompletionEvent> evOwner(new dispenso::CompletionEvent()); // heap: store-buffer fault
+  dispenso::CompletionEvent& ev = *evOwner;
   bool notified = false; // set just before notify() is invoked
   char cell = 0;         // C10: written before notify(), read once completion was observed
   std::vector<std::thread> threads;
@@ -173,8 +176,8 @@ static void wlCEvent() {
 
 } // namespace
 
-HX_WORKLOAD("C21", "latch", wlLatch, SF_DELAY_ONLY, 400000, 400000, 3);
-HX_WORKLOAD("C21", "cevent", wlCEvent, SF_DELAY_ONLY, 400000, 400000, 2);
+HX_WORKLOAD("C21", "latch", wlLatch, SF_DELAY_ONLY | SF_TSO, 400000, 400000, 3);
+HX_WORKLOAD("C21", "cevent", wlCEvent, SF_DELAY_ONLY | SF_TSO, 400000, 400000, 2);
 // with spurious wakes the waits must still not return early
-HX_WORKLOAD("C21", "latch-spurious", wlLatch, SF_ALL, 400000, 400000, 2);
-HX_WORKLOAD("C21", "cevent-spurious", wlCEvent, SF_ALL, 400000, 400000, 1);
+HX_WORKLOAD("C21", "latch-spurious", wlLatch, SF_ALL | SF_TSO, 400000, 400000, 2);
+HX_WORKLOAD("C21", "cevent-spurious", wlCEvent, SF_ALL | SF_TSO, 400000, 400000, 1);
